@@ -1164,7 +1164,7 @@ pub fn gen_select(seed: u64, tier: &Tier, shard: usize, nshards: usize, emit: &m
 // server suite: scripts of transport events / commands against the real gossip loop
 
 pub fn gen_server(seed: u64, tier: &Tier, shard: usize, nshards: usize, emit: &mut dyn FnMut(String)) {
-    let ncases = if tier.thorough { 4000 } else { 320 };
+    let ncases = if tier.thorough { 40_000 } else { 3_200 };
     emit(format!("(case server-{shard})"));
     for i in 0..ncases {
         if i % nshards != shard {
